@@ -205,6 +205,32 @@ Theorem field_selection_stateless : forall prev vds chosen,
 Proof. exact field_selection_stateless_lemma. Qed.
 Print Assumptions field_selection_stateless.
 
+(** ** Round 4.  vdata_cmp reads both Vdatas in the same layout (their interlaces were checked equal) and hdp's
+    dumpvd reads record-major, as its print loop walks (regenerated interlace arguments of the VSread calls;
+    before the show.c repair of round 4 dumpvd read NO_INTERLACE vdatas field-major and printed them scrambled). *)
+Theorem vdata_reads_same_layout : forall il, vs_buffers_same_layout il = true /\
+  dumpvd_read_il_ascii il = FULL_INTERLACE /\ dumpvd_read_il_binary il = FULL_INTERLACE.
+Proof. exact vdata_reads_same_layout_lemma. Qed.
+Print Assumptions vdata_reads_same_layout.
+
+(** lone Vdatas with a non-empty class -- in particular class Attr0.0, the storage of Vdata and Vgroup
+    attributes -- are never dropped from hdiff's object table, so their values are compared like any Vdata's
+    (regenerated: which comparison of vdata_class[0] guards the reserved-class test of insert_vs) *)
+Theorem attribute_vdatas_listed : forall reserved_of_class,
+  insert_vs_skips true false false = false /\ insert_vs_skips true true reserved_of_class = false.
+Proof. exact attribute_vdatas_listed_lemma. Qed.
+Print Assumptions attribute_vdatas_listed.
+
+(** the "different information for attribute" test of diff_sds_attrs (regenerated as a whole) fires exactly when
+    type, element count or name differ -- which is the test the model's attribute loop uses, so a changed LENGTH
+    of an attribute is a difference even when the common prefix is equal *)
+Theorem sds_attr_info_test : forall x y,
+  (negb (a_type x =? a_type y) || negb (Z.of_nat (length (a_vals x)) =? Z.of_nat (length (a_vals y))) || negb (zlist_eqb (a_name x) (a_name y)))
+  = negb (sds_attr_info_differs (a_type x) (a_type y) (Z.of_nat (length (a_vals x))) (Z.of_nat (length (a_vals y)))
+            (if zlist_eqb (a_name x) (a_name y) then 0 else 1) =? 0).
+Proof. exact attrs_loop_test_lemma. Qed.
+Print Assumptions sds_attr_info_test.
+
 (** ** hdp: sdsdumpfull's start[]/left[] walk visits the rows in row-major order, terminates exactly after the
     last row (the result is not an artefact of the fuel), and the row-major linearisation is its inverse. *)
 Theorem dump_order_rowmajor : forall dims, Forall (fun d => 0 < d) dims ->
